@@ -1,6 +1,6 @@
 """Property table and the check / replay / selftest commands."""
-import json, os, sys, time, random
-from . import core
+import json, os, re, sys, time, random
+from . import core, dirb
 from .core import ToolError, log
 
 # ---------------------------------------------------------------------------------------------
@@ -40,6 +40,15 @@ WORLD_N = {
     'withdraw': {'quick': (16, 0),  'thorough': (160, 0)},
 }
 
+# unbounded TLAPS lemmas (spec/proofs/ArithLemmas.tla) that back a property's arithmetic clauses
+PROOFS = {
+    'C01': ['FloorSwapKeepsProduct (what an integer-floor swap guarantees)', 'GrossUpperBound (the code formula overshoots y*a/(x+a) by < 1/D)'],
+    'C03': ['ProvideKeepsShareValue', 'WithdrawKeepsShareValue', 'FloorSwapKeepsProduct'],
+    'C04': ['RefundNeverMore', 'RefundAtMostDustLess'],
+    'C05': ['ShareNeverMore'],
+    'C06': ['GrossUpperBound'],
+}
+
 MATH_N = {'quick': 1600, 'thorough': 24000}
 # pure evaluation events (no formula re-derivation) are cheap: more of them
 MATH_N_CHEAP = {'quick': 6000, 'thorough': 120000}
@@ -67,7 +76,7 @@ def mc_pool_cfg(kind, tier):
     c += '  KIND = "%s"\n' % kind
     c += '  AMTS = %s\n' % ('{0, 1, 2, 3, 5}' if tier == 'thorough' else '{0, 1, 2, 3}')
     c += '  MAXSTEPS = %d\n' % (4 if tier == 'thorough' else 3)
-    c += '  COMMISSION = 1\n  FULL = TRUE\n  KeyBytes <- MCKeyBytes\n  AddrOfIndex <- MCAddrOfIndex\n  LEGACY = {}\n'
+    c += '  COMMISSION = 1\n  FULL = TRUE\n  EXPORT = FALSE\n  KeyBytes <- MCKeyBytes\n  AddrOfIndex <- MCAddrOfIndex\n  LEGACY = {}\n'
     c += 'SPECIFICATION Spec\nVIEW View\nPROPERTY StepProp\nINVARIANT C20_State\nCHECK_DEADLOCK FALSE\n'
     return c
 
@@ -87,6 +96,28 @@ def mc_factory_cfg(tier, legacy='{}'):
     c += '  KeyBytes <- MCKeyBytes\n  AddrOfIndex <- MCAddrOfIndex\n  LEGACY = %s\n' % legacy
     c += 'SPECIFICATION Spec\nVIEW View\nPROPERTY StepProp\nINVARIANT StateInv\nCHECK_DEADLOCK FALSE\n'
     return c
+
+
+def run_proofs(pid):
+    """Re-check the TLAPS lemmas behind a property (all naturals, all scales D >= 1)."""
+    if pid not in PROOFS:
+        return None
+    import subprocess, re
+    t0 = time.time()
+    d = os.path.join(core.SPEC, 'proofs')
+    try:
+        p = subprocess.run(['tlapm', '--threads', '8', 'ArithLemmas.tla'], cwd=d, stdout=subprocess.PIPE,
+                           stderr=subprocess.STDOUT, text=True, timeout=900)
+    except subprocess.TimeoutExpired:
+        raise ToolError('tlapm timed out')
+    m = re.search(r'All (\d+) obligations proved', p.stdout)
+    if not m:
+        raise ToolError('TLAPS lemmas not proved:\n' + p.stdout[-2000:])
+    log('[proof] ArithLemmas: %s obligations proved, %.1fs' % (m.group(1), time.time() - t0))
+    return {'module': 'spec/proofs/ArithLemmas.tla', 'obligations': int(m.group(1)), 'discharged': int(m.group(1)),
+            'lemmas_for_this_property': PROOFS[pid], 'checker_cmd': 'tlapm --threads 8 ArithLemmas.tla',
+            'note': 'lemmas over Int for all naturals and all D >= 1; they cover success paths of the arithmetic core, '
+                    'not the code binding (which is the trace layer)'}
 
 
 def run_mc(pid, tier, workdir):
@@ -173,6 +204,7 @@ def check(pid, tier, seed):
     try:
         core.build_harness()
         mc = run_mc(pid, tier, workdir)
+        proofs = run_proofs(pid)
         reports, samples, n_events, apps_idx, lines_all, stages = [], [], 0, [], [], []
         devs = 0
         # ---- function-level traces -------------------------------------------------------------
@@ -194,6 +226,33 @@ def check(pid, tier, seed):
                 e = json.loads(res['lines'][i])
                 samples.append({'stage': 'math', 'call': e.get('k'), 'input': e.get('h'), 'observed': e.get('r', e.get('r1'))})
             stages.append({'stage': 'math', 'kinds': spec['math'], 'events': res['n'], 'applicable': len(idx)})
+        # ---- direction B: behaviours of the small-scope model executed by the real contracts --------
+        if any(m == 'MC_Pool' for m, _ in spec.get('mc', [])):
+            kinds = ['NN', 'NC', 'CC'] if tier == 'thorough' else [['NN', 'NC', 'CC'][int(pid[1:]) % 3]]
+            num, depth = (1500, 8) if tier == 'thorough' else (160, 7)
+            scs = []
+            for k in kinds:
+                cfg = mc_pool_cfg(k, tier).replace('INVARIANT C20_State\n', '').replace('PROPERTY StepProp\n', '').replace('EXPORT = FALSE', 'EXPORT = TRUE')
+                cfg = re.sub(r'MAXSTEPS = \d+', 'MAXSTEPS = %d' % depth, cfg)
+                bs = dirb.generate(k, num, depth, seed, os.path.join(workdir, 'simB_' + k), cfg)
+                scs += dirb.scenarios(k, bs, 'modelB-%d' % seed)
+            sp = os.path.join(workdir, 'modelB.scenarios')
+            with open(sp, 'w') as f:
+                f.write('\n'.join(json.dumps(x) for x in scs) + '\n')
+            tp = os.path.join(workdir, 'modelB.ndjson')
+            core.harness(['scenario', '--in', sp, '--out', tp])
+            res = core.validate_trace('Trace_World', tp, os.path.join(workdir, 'tv_modelB'), reset_kind='reset', per_shard=350)
+            for r in res['reports']:
+                r['stage'] = 'world'
+                r['scenario'] = scenario_prefix(res['lines'], r['i'])
+            reports += res['reports']
+            n_events += res['n']
+            devs += sum(1 for r in res['reports'] if r['tag'] == 'DEV')
+            idx = res['apps'].get(pid, [])
+            apps_idx += [('modelB', i, core.event_key(res['lines'][i])) for i in idx]
+            stages.append({'stage': 'model-behaviours-replayed (TLC simulate -> real contracts)', 'kinds': kinds,
+                           'behaviours': len(scs), 'events': res['n'], 'applicable': len(idx)})
+            cov['behaviours_replayed_into_impl'] = len(scs)
         # ---- system-level traces ---------------------------------------------------------------
         for driver in spec.get('world', []):
             nb, steps = WORLD_N[driver][tier]
@@ -229,6 +288,7 @@ def check(pid, tier, seed):
             'stages': stages,
             'deviations_from_reference_model': devs,
             'known_finding_hits': {k: len(v) for k, v in known.items()},
+            'proofs': proofs,
             'exhaustive': False,
             'checker_cmd': 'bin/check %s --tier %s' % (pid, tier),
         })
